@@ -1127,6 +1127,12 @@ func c17CheckImage(rep *kit.Report, img c17Img, cands []c17Cand, winHi uint64) (
 			special = "crash_hardstate_torn_unparsable"
 			return
 		}
+		if sn, err := rds.Snapshot(); err == nil && rds.Uint(SnapshotIndex) != sn.Metadata.Index {
+			// the index field of the meta file was rewritten, the snapshot it belongs to was not (yet):
+			// Init compacts up to an index no stored snapshot covers
+			special = "crash_snapshot_index_field_without_its_snapshot"
+			return
+		}
 		l, _ := rds.LastIndex()
 		if es, err := rds.Entries(f, l+1, math.MaxUint64); err == nil {
 			for _, e := range es {
